@@ -17,7 +17,8 @@ def cxx_escape(s):
 
 
 class HarnessGen:
-    def __init__(self, cat, api=None, exclude=None, only=None):
+    def __init__(self, cat, api=None, exclude=None, only=None, no_models=False):
+        self.no_models = no_models   # clang++ 14 cannot compile ConstitutiveModel/*.hpp (independent of anything we test)
         self.cat = cat
         self.exclude = set(exclude or [])   # instance names known not to compile on this tree (library defects unrelated to C20)
         self.only = set(only) if only is not None else None
@@ -26,7 +27,7 @@ class HarnessGen:
         self.skipped = []          # (class, decl, reason)
         self.qnames = {q["name"]: q for q in cat.quantities}
         self.model_classes = [m for m in ("ConstitutiveModel::CompressibleNewtonianFluid", "ConstitutiveModel::ElasticIsotropicSolid",
-                                          "ConstitutiveModel::IncompressibleNewtonianFluid") if m in self.api.classes]
+                                          "ConstitutiveModel::IncompressibleNewtonianFluid") if m in self.api.classes and not no_models]
         self.instances = []        # names of every generated op instance (filled by render)
         self.meta = {}             # name -> text mentioning every library type the op touches (calibration uses it)
 
@@ -108,8 +109,11 @@ class HarnessGen:
                       "PhQ/Dyad.hpp", "PhQ/SymmetricDyad.hpp", "PhQ/ConstitutiveModel.hpp"):
             if extra not in hdrs:
                 hdrs.append(extra)
-        for m in cat.models:
-            hdrs.append("PhQ/ConstitutiveModel/%s.hpp" % m)
+        if self.no_models:
+            hdrs = [h for h in hdrs if "ConstitutiveModel" not in h]
+        else:
+            for m in cat.models:
+                hdrs.append("PhQ/ConstitutiveModel/%s.hpp" % m)
         for h in hdrs:
             o.append("#include <%s>" % h)
         o.append('#include "c20_rt.hpp"')
@@ -128,7 +132,7 @@ class HarnessGen:
         for U, d in cat.units.items():
             enum_info("PhQ::Unit::%s" % U, d["enumerators"], d["literals"])
         enum_info("PhQ::UnitSystem", cat.unit_systems, cat.us_literals)
-        if cat.model_types:
+        if cat.model_types and not self.no_models:
             enum_info("PhQ::ConstitutiveModel::Type", cat.model_types, cat.model_literals)
         # value templates
         o.append("""
@@ -214,6 +218,7 @@ template <class T> struct Maker<PhQ::ConstitutiveModel::CompressibleNewtonianFlu
   if (c.below(2)) return PhQ::ConstitutiveModel::CompressibleNewtonianFluid<T>{vrt::make<PhQ::DynamicViscosity<T>>(c)};
   return PhQ::ConstitutiveModel::CompressibleNewtonianFluid<T>{vrt::make<PhQ::DynamicViscosity<T>>(c), vrt::make<PhQ::BulkDynamicViscosity<T>>(c)}; } };""")
         o.append("struct Registrar { Registrar(const OpEntry* e, int n) { register_ops(e, n); } };")
+        o.append("struct RegistrarInline { RegistrarInline(const OpEntry* e, int n) { register_ops_inline(e, n); } };")
         o.append("}  // namespace vrt")
         return "\n".join(o) + "\n"
 
@@ -428,7 +433,7 @@ template <class T> struct Maker<PhQ::ConstitutiveModel::CompressibleNewtonianFlu
     def render_enums(self):
         out = []
         enums = [("Unit::%s" % U, "PhQ::Unit::%s" % U, True) for U in self.cat.units] + [("UnitSystem", "PhQ::UnitSystem", False)]
-        if self.cat.model_types:
+        if self.cat.model_types and not self.no_models:
             enums.append(("ConstitutiveModel::Type", "PhQ::ConstitutiveModel::Type", False))
         for label, E, is_unit in enums:
             ident = re.sub(r"\W", "_", label)
@@ -564,7 +569,7 @@ template <class T> struct Maker<PhQ::ConstitutiveModel::CompressibleNewtonianFlu
         self.only = saved
         return '#include "c20_prelude.hpp"\nnamespace {\n' + body + "}  // namespace\n"
 
-    def translation_units(self, ntus=16, subset=None):
+    def translation_units(self, ntus=16, subset=None, inline_twins=False):
         """returns {filename: text}.  Every TU that includes the library pays a large fixed cost under the
         sanitizers (the dynamic initialisers of all enumeration tables are emitted in each), so the harness
         is packed into exactly `ntus` TUs of equal estimated weight.
@@ -609,5 +614,12 @@ template <class T> struct Maker<PhQ::ConstitutiveModel::CompressibleNewtonianFlu
         tus = {}
         for i, (w, ts) in enumerate(bins):
             if ts:
-                tus["c20_ops_%02d.cpp" % i] = head + "".join(ts) + tail
+                body = "".join(ts)
+                twins = ""
+                if inline_twins:
+                    # C19 API sweep: the same tables are also registered (= executed before main) from C++17
+                    # inline variables, which clang initialises earlier than ordinary namespace-scope objects
+                    for m in re.finditer(r"static const vrt::Registrar reg_(\w+)\{(table_\w+), (\d+)\};", body):
+                        twins += "inline const vrt::RegistrarInline reg_inline_%s{%s, %s};\n" % (m.group(1), m.group(2), m.group(3))
+                tus["c20_ops_%02d.cpp" % i] = head + body + tail + twins
         return tus
